@@ -180,8 +180,14 @@ func (m *module) checkOp(f *Func, in *Inst) {
 	case op == opControlBarrier || op == opMemoryBarrier:
 		c.rule = "O.atomic"
 		c.m.fire(c.rule)
-		for _, o := range in.idOps() {
-			c.scopeOrSemantics(o.ID, "scope/semantics")
+		ids := in.idOps()
+		if op == opControlBarrier {
+			c.scopeOrSemantics(ids[0].ID, roleExecScope)
+			c.scopeOrSemantics(ids[1].ID, roleMemScope)
+			c.scopeOrSemantics(ids[2].ID, roleSemantics)
+		} else {
+			c.scopeOrSemantics(ids[0].ID, roleMemScope)
+			c.scopeOrSemantics(ids[1].ID, roleSemantics)
 		}
 	case op == opExtInst:
 		c.rule = "O.extinst"
@@ -298,7 +304,10 @@ func (c *opCtx) intDot() {
 	if sa.count != sb.count || sa.width != sb.width {
 		c.bad("operand types %s and %s differ in component count/width", c.m.typeName(c.m.typeIDOf(a)), c.m.typeName(c.m.typeIDOf(b)))
 	}
-	_, hasFmt := in.opLit(2)
+	pf, hasFmt := in.opLit(2)
+	if hasFmt && pf != 0 {
+		c.bad("Packed Vector Format %d is not a known enumerant (only PackedVectorFormat4x8Bit = 0)", pf)
+	}
 	if !sa.vector {
 		if sa.width != 32 || !hasFmt {
 			c.bad("scalar operands must be 32-bit integers with a Packed Vector Format operand")
